@@ -33,7 +33,7 @@ def run_c15(tier):
     try:
         reqs, rows = [], []
         for gi in range(chk.scale(120, 1200)):
-            sc = dag.gen_dag(chk.rng, n=chk.rng.randint(4, 12))
+            sc = dag.gen_dag(chk.rng, n=chk.rng.randint(4, 12), enum_heavy=(gi % 3 == 0))
             deps = dag.true_deps(sc)
             names = [d.name for d in sc.decls]
             baseline = None
